@@ -103,8 +103,9 @@ _H = []
 
 
 def H(prop, tier, module, name, config="default", flagset="std", timeout=900, **meta):
+    # generous per-harness caps: a loaded machine must not turn a passing harness into an inconclusive one
     e = dict(prop=prop, tier=tier, name=name, path=f"proofs::{module}::{name}" if module else f"proofs::{name}",
-             config=config, flagset=flagset, timeout=timeout)
+             config=config, flagset=flagset, timeout=max(timeout, 2400))
     e.update(meta)
     _H.append(e)
 
